@@ -51,6 +51,10 @@ pub fn variants(r: &Runner) -> Vec<Op> {
     let registered0 = v0.registered;
     let mut ops = vec![
         Op::VammConfig { vamm: 0, holding_cap: None, oi_cap: None, toll: None, spread: None, fluct: Some(v0.fluct), margin_engine: None, insurance_fund: None, pricefeed: None, twap_interval: None },
+        // each address-valued field of the vAMM's configuration on its own (restating the deployment's values)
+        Op::VammConfig { vamm: 0, holding_cap: None, oi_cap: None, toll: None, spread: None, fluct: None, margin_engine: None, insurance_fund: None, pricefeed: Some("@pf".into()), twap_interval: None },
+        Op::VammConfig { vamm: 0, holding_cap: None, oi_cap: None, toll: None, spread: None, fluct: None, margin_engine: Some("@engine".into()), insurance_fund: None, pricefeed: None, twap_interval: None },
+        Op::VammConfig { vamm: 0, holding_cap: None, oi_cap: None, toll: None, spread: None, fluct: None, margin_engine: None, insurance_fund: Some("@if".into()), pricefeed: None, twap_interval: None },
         Op::VammOwner { vamm: 0, owner: "stranger".into() },
         Op::SwapInput { vamm: 0, dir: Dir::Add, quote: (v0.q / 100_000).max(10), limit: 0, can_go_over: true },
         Op::SwapOutput { vamm: 0, dir: Dir::Add, base: (v0.b / 100_000).max(10), limit: 0 },
